@@ -137,6 +137,12 @@ def events_of(prog, fn, module, memo, depth=0):
         if g is not None and in_module(g, module) and depth < 6 and not mir.is_testsupport(g.name):
             for (k, c2, _) in events_of(prog, g, module, memo, depth + 1):
                 evs.append((k, c2, c))
+        # a closure built here and handed to this call (`rows.iter().try_for_each(|r| w.write_record(..))`) runs under it
+        for a in c.args[1:]:
+            g2 = mir._closure_fn_of(prog, fn, a)
+            if g2 is not None and depth < 6:
+                for (k, c2, _) in events_of(prog, g2, module, memo, depth + 1):
+                    evs.append((k, c2, c))
     memo[fn.name] = evs
     return evs
 
@@ -437,6 +443,8 @@ def run(prog, rep, tier='quick', config='default'):
                               detail='a record can be written after the flush/rename (%s)' % late[0][1].where())
         if writes:
             rep.ok('R14b', 'writes-precede-flush', fn=writer.name, detail='%d write event(s), none reachable after the flush' % len(writes), trivial=True)
+        else:
+            rep.violation('R14b', 'anchor-lost:record-writes', fn=writer.name, detail='anchor lost: no record write found on the way to the flush / rename')
         # sync receiver is the written file
         for s in s_ok:
             org = mir.provenance(s[1].fn, s[1].args[0])
@@ -493,14 +501,35 @@ def run(prog, rep, tier='quick', config='default'):
                     if o.get('k') == 'const' and re.search(r'^b?"', o.get('v', '')) and len(o['v']) > 6:
                         out.add(o['v'])
         return out
+    # the producer may take the bare file name from a helper of the cache module (`rates_csv_file_name(year)`)
+    helpers = [g for g in prog.callees_closure([producer]).values() if g is not producer and in_module(g, module) and g.kind in ('Fn', 'AssocFn')]
+    group = {producer.name} | {g.name for g in helpers}
     live_t = templates(producer)
+    for g in helpers:
+        live_t |= templates(g)
     dup = []
     if live_t:
         for fn in prog.product_fns():
-            if fn.name == producer.name or fn.name.startswith(producer.name + '::'):
+            if any(fn.name == n or fn.name.startswith(n + '::') for n in group):
                 continue
             if templates(fn) & live_t:
                 dup.append(fn)
+    # any other user of such a helper must turn its result into a different name (the temporary name: a constant suffix is appended)
+    for g in helpers:
+        for c in prog.callers.get(g.name, []):
+            if c.fn.name in group or mir.is_testsupport(c.fn.name) or prog.owner_of(c.fn).name in group:
+                continue
+            t = mir.forward_taint(c.fn, {c.dst['l']})
+            changed = False
+            for x in c.fn.calls:
+                if x.bb == c.bb or not x.args or x.arg_local(0) not in t:
+                    continue
+                if re.search(r'ops::Add<&(\'\w+ )?str>|String::push_str$|String::push$|ops::AddAssign<&(\'\w+ )?str>', x.callee + ' ' + x.decl) and len(x.args) > 1:
+                    o2 = mir.provenance(c.fn, x.args[1])
+                    if o2.consts and not o2.params and not [y for y in o2.calls if y.short not in ('deref', 'as_str', 'borrow', 'as_ref')]:
+                        changed = True
+            if not changed:
+                dup.append(c.fn)
     if not live_t:
         rep.violation('R14e', 'anchor-lost:live-name-template', fn=producer.name, detail='anchor lost: the format template of the live cache file name')
     elif dup:
